@@ -31,6 +31,7 @@ func init() {
 			{ID: "C13-R7", Title: "the longest matching mount wins", Floor: 1, Run: longestMountWins},
 			{ID: "C13-R8", Title: "a configured base is never dropped", Floor: 1, Run: baseNeverDropped},
 			{ID: "C13-R9", Title: "mount lookup compares cleaned paths", Floor: 1, Run: mountPathCleaned},
+			{ID: "C13-R10", Title: "a VirtualOS owns its mount table", Floor: 1, Run: virtualOSOwnsItsMaps},
 		},
 	})
 }
